@@ -127,8 +127,10 @@ def r2_in_place_false_works_on_copy(ctx, rid):
                 recv = c.func.value
                 if isinstance(recv, ast.Attribute):       # net._ir.clear() etc. are not template calls
                     continue
-                n_calls += 1
                 orig = an.origins(recv)
+                if c.func.attr == "clear" and orig and all(o[0] == "G" for o in orig):
+                    continue        # `.clear()` of a module-level container (a name registry), not the template's clear()
+                n_calls += 1
                 if orig and all(o[0] == "F" for o in orig):
                     ctx.ok(rid, f, c, f"`{ast.unparse(recv)}.{c.func.attr}(...)` acts on the deep copy when in_place is false",
                            {"receiver_origins": sorted(fmt_origin(o) for o in orig), "inlined_helpers": list(fi.inlined_helpers)},
